@@ -124,7 +124,7 @@ type extern struct {
 
 func (in *mInst) export(name string) (extern, bool) {
 	if name == "mem" {
-		if in.mem != nil {
+		if in.mem != nil && in.spec.exported(kMem, 0) {
 			return extern{kind: kMem, m: in.mem}, true
 		}
 		return extern{}, false
@@ -138,15 +138,15 @@ func (in *mInst) export(name string) (extern, bool) {
 	}
 	switch name[0] {
 	case 'f':
-		if i < len(in.funcs) {
+		if i < len(in.funcs) && in.spec.exported(kFunc, i) {
 			return extern{kind: kFunc, f: in.funcs[i]}, true
 		}
 	case 't':
-		if i < len(in.tables) {
+		if i < len(in.tables) && in.spec.exported(kTable, i) {
 			return extern{kind: kTable, t: in.tables[i]}, true
 		}
 	case 'g':
-		if i < len(in.globals) {
+		if i < len(in.globals) && in.spec.exported(kGlobal, i) {
 			return extern{kind: kGlobal, g: in.globals[i]}, true
 		}
 	}
@@ -605,6 +605,9 @@ func (m *model) eval(s Step) mres {
 	}
 	if (acc == "gcall" || acc == "tcall" || acc == "rtcall" || acc == "htl") && (s.Sig < 0 || s.Sig >= len(sigs)) {
 		return mres{skip: true}
+	}
+	if ((acc == "hgget" || acc == "hgset") && !in.spec.exported(kGlobal, s.Idx)) || (acc == "hfcall" && !in.spec.exported(kFunc, s.Idx)) {
+		return mres{skip: true} // these host operations go through the export
 	}
 	var g *mGlobal
 	if needG {
